@@ -39,7 +39,7 @@ def body_lines(path):
     """(line number, text) of the non-test part of a source file"""
     out = []
     for i, l in enumerate(open(path).read().split("\n")):
-        if "#[cfg(test)]" in l: break
+        if "#[cfg(test)]" in l or "#[cfg(all(test" in l: break
         out.append((i, l))
     return out
 
